@@ -1,0 +1,4 @@
+// Package verifhook holds the schedule-point hook used by the verification
+// harness. Without the build tag "verif" the package is empty and nothing in
+// the repository calls into it.
+package verifhook
